@@ -407,6 +407,13 @@ func (j *c05Job) c05Run(pathText string, acc bool, hist []int, refs map[int]stri
 						last.slice[i] = "SCRIBBLED"
 					}
 					last.want = showAcc(last.slice)
+					// the caller also appends to every result it holds, within its capacity (a result
+					// belongs to the caller together with its spare capacity)
+					for ri := range results {
+						if r := results[ri].slice; cap(r) > len(r) {
+							_ = append(r, "APPENDED")
+						}
+					}
 				}
 			default:
 				if d, e, isM := c05IsM(op); isM {
@@ -641,7 +648,7 @@ func init() {
 			"histories longer than the bound are not explored; state hidden inside the parsed tree is observed only through call results",
 		},
 		Bounds: map[string]string{
-			"quick":    "paths: <=2 steps over the 50-step alphabet (+ functions after <=1 step), every atom as $[?()] and $.a[?()], every A&&B / A||B over 24 atoms, 13 function filters (about 4.6k); alphabet: calls on 4 documents (first success, same-shape documents with another outcome, other outcome classes) + X (unrelated Retrieve cycling both pools) + W (scribble on the last result); M (the caller edits a document object in place into another document of the same shape, after a call on it and before another); all histories of length <=3 in plain mode and <=2 in accessor mode (accessor mode: paths of <=1 step; all ladder paths in the thorough tier); pool answers <=1 deviation; for the single-step paths and the 24 reduced atoms also all histories of length 4..6 over 3 documents + X with default pool answers",
+			"quick":    "paths: <=2 steps over the 50-step alphabet (+ functions after <=1 step), every atom as $[?()] and $.a[?()], every A&&B / A||B over 24 atoms, 13 function filters (about 4.6k); alphabet: calls on 4 documents (first success, same-shape documents with another outcome, other outcome classes) + X (unrelated Retrieve cycling both pools) + W (scribble on the last result and append to every result held, within its capacity); M (the caller edits a document object in place into another document of the same shape, after a call on it and before another); all histories of length <=3 in plain mode and <=2 in accessor mode (accessor mode: paths of <=1 step; all ladder paths in the thorough tier); pool answers <=1 deviation; for the single-step paths and the 24 reduced atoms also all histories of length 4..6 over 3 documents + X with default pool answers",
 			"thorough": "5 documents, histories of length <=4 (accessor mode <=3), pool answers <=1 deviation (<=2 for paths of <=1 step); long histories up to length 8",
 		},
 		New: newC05,
